@@ -348,7 +348,31 @@ func (tr *Tr) subRefOfLoc(l Loc) string {
 		tr.sc.declare(inv, "(Int) Int")
 		tr.sc.fact(fmt.Sprintf("(forall ((o Int)) (! (and (= (%s (%s o)) o) (=> (> o 0) (> (%s o) 0))) :pattern ((%s o))))", inv, fn, fn, fn))
 	}
-	return "(" + fn + " " + l.Ref + ")"
+	t := "(" + fn + " " + l.Ref + ")"
+	// an embedded sub-object is allocated together with its owner: for every allocation counter value that frames
+	// refer to, "owner allocated before" implies "sub-object allocated before" (instantiated per known counter)
+	if !strings.Contains(l.Ref, "?") {
+		if _, known := tr.subTerms[t]; !known {
+			tr.subTerms[t] = l.Ref
+			for _, top := range tr.frameTops {
+				tr.sc.fact(fmt.Sprintf("(=> (< %s %s) (< %s %s))", l.Ref, top, t, top))
+			}
+		}
+	}
+	return t
+}
+
+// noteFrameTop records an allocation-counter value used in a frame axiom and relates all known sub-object references to it.
+func (tr *Tr) noteFrameTop(top string) {
+	for _, t := range tr.frameTops {
+		if t == top {
+			return
+		}
+	}
+	tr.frameTops = append(tr.frameTops, top)
+	for _, t := range sortedKeys(tr.subTerms) {
+		tr.sc.fact(fmt.Sprintf("(=> (< %s %s) (< %s %s))", tr.subTerms[t], top, t, top))
+	}
 }
 
 // storeRec remembers how a named heap version was produced, for syntactic read-over-write simplification.
@@ -460,12 +484,18 @@ func (tr *Tr) storeLeaf(st *State, l Loc, lf leaf, term string) {
 		h := tr.heapVar(st, name, arr1(lf.sort))
 		sym := tr.nameTerm(name, arr1(lf.sort), sStore(h, l.Ref, term))
 		tr.stores[sym] = storeRec{base: h, ref: l.Ref, val: term}
+		if tr.freshRefs[l.Ref] {
+			tr.allocParent[sym] = h
+		}
 		tr.setHeapVar(st, name, arr1(lf.sort), sym)
 	case LElem:
 		name := l.Prefix + lf.suffix
 		h := tr.heapVar(st, name, arr2(lf.sort))
 		sym := tr.nameTerm(name, arr2(lf.sort), sStore(h, l.Ref, sStore(sSel(h, l.Ref), l.Idx, term)))
 		tr.stores[sym] = storeRec{base: h, ref: l.Ref, idx: l.Idx, val: term}
+		if tr.freshRefs[l.Ref] {
+			tr.allocParent[sym] = h
+		}
 		tr.setHeapVar(st, name, arr2(lf.sort), sym)
 	default:
 		panic("storeLeaf")
